@@ -584,14 +584,23 @@ def hold_oracle(ck, cases, k):
 
 
 def order_oracle(c):
-    """The emitted JSON lists the members in source order (c["order"]: keys and scalars of the source in
-    document order; for plain JSON read by encoding/json's tokenizer, for rendered documents from the tree)."""
+    """Repeated keys: JSON objects are unordered, so a re-ordering of distinct keys keeps the meaning; but of a key
+    that occurs more than once in an object the last occurrence wins: the occurrence that is last in the source
+    must be last in the emitted JSON.  c["order"] / obs["order"]: for every object and every repeated key of it,
+    the number of occurrences and the value of the last one (harness keyOrderJSON)."""
     o = c["obs"]
-    if c.get("order") and o.get("ok") and o.get("order") and "E(" not in c["order"] and o["order"] != c["order"]:
-        a, b = c["order"], o["order"]
-        k = next((i for i in range(min(len(a), len(b))) if a[i] != b[i]), min(len(a), len(b)))
-        return "member-order", ("the emitted JSON does not list the members in source order: source ...%s..., "
-                                "emitted ...%s... (%s)" % (a[max(0, k - 40):k + 40], b[max(0, k - 40):k + 40], c.get("src", "")[:120]))
+    if not c.get("order") or not o.get("ok") or "E(" in c["order"]:
+        return None
+    got_order = o.get("order")
+    if got_order is None and c["op"] in ("tojson", "unmarshal") and o.get("valid"):
+        got_order = ""          # the emitted JSON has no repeated key at all
+    if got_order is not None and got_order != c["order"]:
+        a, b = c["order"].split(" "), got_order.split(" ")
+        diff = [x for x in a if x not in b][:1] or a[:1]
+        got = [y for y in b if diff and y.split("=<")[0] == diff[0].split("=<")[0] and y not in a][:1]
+        return "dup-key-order", ("a key that occurs more than once in an object - the last occurrence wins: in the source "
+                                 "it is %s, in the emitted JSON %s (%s)" % (
+                                     diff[0][:200] if diff else "?", got[0][:200] if got else b[:1], c.get("src", "")[:100]))
     return None
 
 
